@@ -71,7 +71,7 @@ theorem sample_on_arc {f t u : ℝ} (h : LimOk f t) (hu0 : 0 ≤ u) (hu : u < sa
     insideBounds (randomAngle f t u) (centerTol f t).1 (centerTol f t).2 = true := by
   rw [inside_iff_onArc h]
   have hpos : sampleSpan f t > 0 := lt_of_le_of_lt hu0 hu
-  rw [((randomAngle_cases f t u).1 (Or.inr hpos))]
+  rw [randomAngle_of_pos u hpos]
   refine ⟨0, by push_cast; linarith, ?_⟩
   push_cast
   rcases lt_or_gt_of_ne h.1 with hlt | hgt
@@ -85,7 +85,7 @@ theorem sample_on_arc {f t u : ℝ} (h : LimOk f t) (hu0 : 0 ≤ u) (hu : u < sa
 theorem sample_range {f t u : ℝ} (hne : f ≠ t) (hu0 : 0 ≤ u) (hu : u < sampleSpan f t) :
     f ≤ randomAngle f t u ∧ randomAngle f t u < unwrapTop f t := by
   have hpos : sampleSpan f t > 0 := lt_of_le_of_lt hu0 hu
-  rw [((randomAngle_cases f t u).1 (Or.inr hpos))]
+  rw [randomAngle_of_pos u hpos]
   refine ⟨by linarith, ?_⟩
   rcases lt_or_gt_of_ne hne with hlt | hgt
   · rw [unwrapTop_of_le hlt.le]
@@ -97,11 +97,11 @@ theorem sample_range {f t u : ℝ} (hne : f ≠ t) (hu0 : 0 ≤ u) (hu : u < sam
 /-- [R] zero-width wrap-around range (`from - to` a whole number of turns): nothing is drawn, the
 lower limit is returned … -/
 theorem sample_zero_width {f t : ℝ} (u : ℝ) (h0 : sampleSpan f t = 0) : randomAngle f t u = f := by
-  apply (randomAngle_cases f t u).2
+  apply randomAngle_of_not_pos
   · intro hlt
     have := (sampleSpan_pos f t).1 hlt
     linarith
-  · rw [h0]; exact lt_irrefl _
+  · rw [h0]; exact lt_irrefl (0 : ℝ)
 
 /-- [R] … and it is accepted -/
 theorem sample_zero_width_accepted {f t : ℝ} (u : ℝ) (h : LimOk f t) (h0 : sampleSpan f t = 0) :
@@ -212,7 +212,7 @@ example : LimOk 5 4 ∧ sampleSpan (5 : ℝ) 4 = 2 * π - 1 ∧ DrawOk 5 4 3 ∧
     rw [sampleSpan_wrap (by norm_num) (by linarith)]; ring
   have hd : DrawOk 5 4 3 := ⟨by norm_num, by rw [hs]; linarith⟩
   refine ⟨hl, hs, hd, ?_, sample_on_arc hl hd.1 hd.2⟩
-  rw [(randomAngle_cases (5 : ℝ) 4 3).1 (Or.inr (lt_of_le_of_lt hd.1 hd.2))]
+  rw [randomAngle_of_pos 3 (lt_of_le_of_lt hd.1 hd.2)]
   norm_num
 
 /-- ordinary range straddling zero: `from = -1`, `to = 2`, `u = 2.5` -/
@@ -225,7 +225,7 @@ example : insideBounds (randomAngle (-1 : ℝ) 2 2.5) (centerTol (-1 : ℝ) 2).1
 
 /-- six joints, mixing wrap-around and ordinary ranges, satisfy all hypotheses of `samples_compliant` -/
 example : (Constraints.mk' (⟨5, -1, 3, -2, 3, -3⟩ : J6 ℝ) ⟨4, 1, 1, 2, 1, 3⟩ 0).compliant
-    (randomAngles (Constraints.mk' (⟨5, -1, 3, -2, 3, -3⟩ : J6 ℝ) ⟨4, 1, 1, 2, 1, 3⟩ 0) ⟨3, 1, 4, 3, 0, 5⟩) = true := by
+    (randomAngles (Constraints.mk' (⟨5, -1, 3, -2, 3, -3⟩ : J6 ℝ) ⟨4, 1, 1, 2, 1, 3⟩ 0) ⟨3, 1, 3, 3, 0, 5⟩) = true := by
   have hp := pi_gt_three
   have ok : ∀ f t : ℝ, f ≠ t → |f| ≤ 5 → |t| ≤ 5 → LimOk f t := fun f t hne hf ht =>
     limOk_of_abs_le hne (by linarith) (by linarith)
